@@ -1,7 +1,6 @@
 package pgdump
 
 import (
-	"os"
 	"path/filepath"
 )
 
@@ -17,7 +16,7 @@ type AuthInfo struct {
 // ExtractPasswords extracts password hashes from pg_authid (global/1260)
 func ExtractPasswords(dataDir string) ([]AuthInfo, error) {
 	authFile := filepath.Join(dataDir, "global", "1260")
-	data, err := os.ReadFile(authFile)
+	data, err := readRegularFile(authFile)
 	if err != nil {
 		return nil, err
 	}
